@@ -1,3 +1,157 @@
-import PybtexModel.Model.Engine
+/-
+C06 — BibTeX-engine output depends only on the cited entries and the style.
+
+Property theorems only.  Model of the code: `Model/Engine.lean` (`makeBibliography`,
+`formatFromFiles`) on top of `Model/Interp.lean` (the interpreter), `Model/AuxFile.lean` (the
+`.aux` reader, C20), `Model/Citations.lean` / `Model/Crossref.lean` (C05, C14); helper lemmas:
+`Lemmas/Engine.lean`.
+-/
+import PybtexModel.Lemmas.Engine
+
 namespace Pybtex.Props
+open Pybtex Pybtex.Interp Pybtex.Engine
+
+/-! ### 1. entry-point equivalence and overrides -/
+
+/-- Driving the engine through an `.aux` file is the explicit call with what the `.aux` reader
+returns, byte for byte (`.bbl`, the interpreter's reports, printed output) and with the reader's
+own reports attached; a failure of the reader (fatal `AuxDataError`, unreadable file) is the
+failure of the run; a failure of the explicit call is the failure of the run. -/
+theorem C06_aux_equiv (files : Files) (aux : Str) (fuel : Nat) (mc : Int) :
+    (∀ a, Aux.parse files.aux fuel aux = .error a →
+        makeBibliography files aux fuel none ".bib".toList mc none = .error (.aux a)) ∧
+    (∀ st, Aux.parse files.aux fuel aux = .ok st →
+        ∃ style data, st.style = some style ∧ st.data = some data ∧
+          makeBibliography files aux fuel none ".bib".toList mc none =
+            (formatFromFiles files (data.map (· ++ ".bib".toList)) style st.citations mc none).map
+              (fun r => (r, st.reports))) := by
+  constructor
+  · intro a h
+    simp only [makeBibliography, h]
+  · intro st h
+    obtain ⟨⟨style, hs⟩, ⟨data, hd⟩⟩ := parse_ok_style_data _ _ _ _ h
+    refine ⟨style, data, hs, hd, ?_⟩
+    simp only [makeBibliography, h, hs, hd, Option.getD_none]
+    cases formatFromFiles files (data.map (· ++ ".bib".toList)) style st.citations mc none <;> rfl
+
+
+/-- the state `READ` leaves behind when a `bib_format` reader delivered `(es, pre)`: its entries
+go through `add_entry` (`addStep`: wanted-set filtering, first key wins) in the reader's order -/
+def readAlt (inp : Input) (s : St) (es : List (Str × Bib.Entry)) (pre : List Str) : St :=
+  let st0 : Bib.St :=
+    { rest := [], macros := CIDict.ofPairs s.macros,
+      db := { wanted := some (CISet.ofList s.citations), citations := CISet.ofList s.citations, preamble := pre },
+      roles := [] }
+  let st := es.foldl addStep st0
+  let db := convertDb st.db
+  let x := BibData.addExtraCitations db s.citations inp.minCrossrefs
+  let m := BibData.removeMissing db x.1
+  { s with db := some db, preamble := pre.flatten, citations := m.1,
+           reports := s.reports ++ st.errs.map Report.bib ++ x.2.map Report.data ++ m.2.map Report.data }
+
+/-- An explicitly requested style or database format overrides what the `.aux` file or the
+default says.
+(1) With `style = s'` the run is the explicit call with style `s'`, whatever `\bibstyle` says
+(the right-hand side does not mention the style of the `.aux` file); the reader's suffix and
+database are passed on.
+(2) With a `bib_format` reader (database `db`) the explicit call does not depend on the names or
+the contents of the `.bib` files (`readTexts` is not called; only the `.bst` file is read) …
+(3) … nor does the interpreter look at `.bib` texts, whatever they are …
+(4) … because `READ` stores the reader's database. -/
+theorem C06_overrides (files : Files) (aux : Str) (fuel : Nat) (mc : Int) :
+    (∀ st, Aux.parse files.aux fuel aux = .ok st →
+        ∃ data, st.data = some data ∧ ∀ s' suffix alt,
+          makeBibliography files aux fuel (some s') suffix mc alt =
+            (formatFromFiles files (data.map (· ++ suffix)) s' st.citations mc alt).map
+              (fun r => (r, st.reports))) ∧
+    (∀ (files' : Files) names names' style cites db,
+        files'.text (style ++ ".bst".toList) = files.text (style ++ ".bst".toList) →
+        formatFromFiles files names style cites mc (some db) =
+          formatFromFiles files' names' style cites mc (some db)) ∧
+    (∀ rfuel prog ts ts' cites db,
+        run rfuel prog { bibTexts := ts, citations := cites, minCrossrefs := mc, alt := some db } =
+          run rfuel prog { bibTexts := ts', citations := cites, minCrossrefs := mc, alt := some db }) ∧
+    (∀ rfuel (inp : Input) (c : Bst.Command) (s : St) es pre, upper c.name = "READ".toList →
+        inp.alt = some (es, pre) → runCommand rfuel inp c s = .ok (readAlt inp s es pre)) := by
+  refine ⟨?_, ?_, ?_, ?_⟩
+  · intro st h
+    obtain ⟨⟨style, hs⟩, ⟨data, hd⟩⟩ := parse_ok_style_data _ _ _ _ h
+    refine ⟨data, hd, ?_⟩
+    intro s' suffix alt
+    simp only [makeBibliography, h, hs, hd, Option.getD_some]
+    cases formatFromFiles files (data.map (· ++ suffix)) s' st.citations mc alt <;> rfl
+  · intro files' names names' style cites db ht
+    simp only [formatFromFiles, ht]
+  · intro rfuel prog ts ts' cites db
+    exact run_alt rfuel ts ts' cites mc db prog
+  · intro rfuel inp c s es pre hc ha
+    rw [runCommand_read rfuel inp c s hc]
+    simp only [readFinish, readParsed, ha, readAlt, readSt0, foldl_addStep_preamble]
+
+
+/-! ### 3. one item per resolved citation, in citation / reverse / stable sort-key order -/
+
+/-- The style schema `READ; [SORT;] ITERATE {f}` (and `REVERSE {f}`).  Let `f` be a function that,
+called for the entry `k` in any state satisfying an invariant `Inv` it maintains, appends exactly
+the line group `item k` to the output.  Then, from any state `s` satisfying `Inv` (e.g. the state
+after `READ`, where `s.citations` are the resolved citations):
+* `ITERATE {f}` appends `item k` for each resolved citation `k`, in citation order;
+* `REVERSE {f}` does so in reverse citation order;
+* `SORT` followed by `ITERATE {f}` does so in the order of `sortByKey` applied to the citations
+  paired with their `sort.key$` — a permutation of the citations, ascending by key (code-point
+  order), in which the citations with the same key keep their citation order (stability);
+  `strLt` is a strict total order (`strLt_total`), so ties are exactly equal keys. -/
+theorem C06_one_item_per_citation (fuel : Nat) (inp : Input) (f : VarObj) (Inv : St → Prop)
+    (item : Str → List Str)
+    (hf : ∀ s k s', Inv s → execObj fuel f { s with cur := some k } = .ok s' →
+      Inv s' ∧ s'.lines = s.lines ++ item k)
+    (hcit : ∀ s cits, Inv s → Inv { s with citations := cits })
+    (c : Bst.Command) (t : BTok) (rest : List BTok) (fname : Str)
+    (hg : c.groups = [t :: rest]) (ht : tokName t = .ok fname)
+    (s : St) (hs : Inv s) (hv : s.vars.getItem fname = some f) :
+    (upper c.name = "ITERATE".toList → ∀ s', runCommand fuel inp c s = .ok s' →
+        s'.lines = s.lines ++ s.citations.flatMap item) ∧
+    (upper c.name = "REVERSE".toList → ∀ s', runCommand fuel inp c s = .ok s' →
+        s'.lines = s.lines ++ s.citations.reverse.flatMap item) ∧
+    (upper c.name = "ITERATE".toList → ∀ sortc : Bst.Command, upper sortc.name = "SORT".toList →
+      ∀ s', runProgram fuel inp [sortc, c] s = .ok s' →
+        ∃ l : List (Str × Str), l.map (·.2) = s.citations ∧ (∀ p ∈ l, sortKeyOf s p.2 = some p.1) ∧
+          s'.lines = s.lines ++ ((sortByKey l).map (·.2)).flatMap item ∧
+          (sortByKey l).Perm l ∧
+          (sortByKey l).Pairwise (fun a b => strLt b.1 a.1 = false) ∧
+          (∀ κ, (sortByKey l).filter (fun p => p.1 = κ) = l.filter (fun p => p.1 = κ))) := by
+  have hstep : ∀ (s : St) (cits : List Str) s', Inv s → s.vars.getItem fname = some f →
+      iterStep fuel cits c s = .ok s' → s'.lines = s.lines ++ cits.flatMap item := by
+    intro s cits s' hs hv h
+    simp only [iterStep, hg, ht, hv] at h
+    exact (iterate_items fuel f Inv item hf cits s s' hs h).2
+  refine ⟨?_, ?_, ?_⟩
+  · intro hc s' h
+    rw [runCommand_iterate fuel inp c s hc] at h
+    exact hstep s _ s' hs hv h
+  · intro hc s' h
+    rw [runCommand_reverse fuel inp c s hc] at h
+    exact hstep s _ s' hs hv h
+  · intro hc sortc hsc s' h
+    simp only [runProgram] at h
+    split at h
+    · cases h
+    · rename_i s1 h1
+      obtain ⟨l, hl1, hl2, rfl⟩ := runCommand_sort_ok fuel inp sortc s s1 hsc h1
+      split at h
+      · cases h
+      · rename_i s2 h2
+        have e : s2 = s' := by injection h
+        subst e
+        rw [runCommand_iterate fuel inp c _ hc] at h2
+        have := hstep { s with citations := (sortByKey l).map (·.2) } _ s2 (hcit s _ hs) hv h2
+        obtain ⟨p1, p2, p3⟩ := sortByKey_spec l
+        exact ⟨l, hl1, hl2, this, p1, p2, p3⟩
+
+/-- `strLt` (Python's `<` on `str`) is a strict total order: ties of the sort are equal keys. -/
+theorem C06_sort_order_total (a b c : Str) :
+    strLt a a = false ∧ (strLt a b = true → strLt b c = true → strLt a c = true) ∧
+    (strLt a b = false → strLt b a = false → a = b) :=
+  ⟨strLt_irrefl a, strLt_trans, strLt_total⟩
+
 end Pybtex.Props
